@@ -193,8 +193,10 @@ func fromCtyNumberUInt(bf *big.Float, target reflect.Value, path cty.Path) error
 		panic("weird number of bits in target uint")
 	}
 
+	// big.Float.Uint64 reports big.Exact for some numbers that have a
+	// fractional part, so we must check for a whole number ourselves.
 	iv, accuracy := bf.Uint64()
-	if accuracy != big.Exact || iv > max {
+	if accuracy != big.Exact || !bf.IsInt() || iv > max {
 		return path.NewErrorf("value must be a whole number, between 0 and %d inclusive", max)
 	}
 
